@@ -217,7 +217,7 @@ void h_iter(void) {
 }
 void h_hash_cmp(void) {
   arbitrary_list();
-  uint64_t h = 0; for (int j = 0; j < N; j++) h ^= __CPROVER_uninterpreted_cvH(in_v[j]);
+  uint64_t h = 0; for (int j = 0; j < N; j++) h ^= cv_hash_of(in_v[j]);
   ASSERT(List_Hash(l) == h, "[C10] the hash of a List is the XOR of its elements' hashes (a function of the contents, equal to an Array's with equal elements)");
   int want = 0;
   for (int j = 0; j < N || j < M; j++) {
